@@ -249,7 +249,7 @@ theorem parseHeader_hdr (os suf : Str) (c : Correction) (rest : List Str) (h : S
 theorem buildEntry_body (suf : Str) (c : Correction) (sep : List Str) (p : Pending)
     (h : Simple c) (hs : SufOK '-' suf) (hsep : ∀ l ∈ sep, NoDelim '-' l) :
     ∃ e, buildEntry (fsOf suf) (bodyL suf c ++ sep) p = some e ∧
-      e.name = p.name ∧ e.attrsStr = p.attrsStr ∧ e.input = c.input := by
+      e.name = p.name ∧ e.attrsStr = p.attrsStr ∧ e.input = c.input ∧ e.hlen = p.hlen ∧ e.dlen = c.dlen := by
   have hin : ∀ l ∈ splitIncl (c.input ++ ['\n']), NoDelim '-' l := fun l hl => (h.inputLines l hl).2
   have hrest : ∀ l ∈ splitIncl (trim c.output ++ ['\n']) ++ sep, NoDelim '-' l := by
     intro l hl
@@ -265,7 +265,7 @@ theorem buildEntry_body (suf : Str) (c : Correction) (sep : List Str) (p : Pendi
     simp only [bestDivider, parseDelimLine_rep '-' c.dlen suf h.dlen (by decide) hs, suffixMatches_fsOf,
       Bool.true_and, ge_iff_le, Nat.zero_le, decide_true, ↓reduceIte, Nat.zero_add, hnl]
     exact bestDivider_noDelim_end _ _ _ _ _ hrest
-  refine ⟨_, by simp only [buildEntry, hbest]; rfl, rfl, rfl, ?_⟩
+  refine ⟨_, by simp only [buildEntry, hbest]; rfl, rfl, rfl, ?_, rfl, rfl⟩
   simp only [bodyL, List.append_assoc]
   rw [List.take_left' rfl, splitIncl_flatten]
   exact h.inputCr
@@ -275,6 +275,9 @@ theorem buildEntry_body (suf : Str) (c : Correction) (sep : List Str) (p : Pendi
 /-- The part of a correction / of an entry that is not an expected output. -/
 def Correction.skey (c : Correction) : Str × Str × Str := (c.name, c.attrsStr, c.input)
 def Entry.skey (e : Entry) : Str × Str × Str := (e.name, e.attrsStr, e.input)
+/-- … together with the delimiter lengths. -/
+def Correction.dkey (c : Correction) : Str × Str × Str × Nat × Nat := (c.name, c.attrsStr, c.input, c.hlen, c.dlen)
+def Entry.dkey (e : Entry) : Str × Str × Str × Nat × Nat := (e.name, e.attrsStr, e.input, e.hlen, e.dlen)
 
 theorem splitIncl_line_cons2 (a b rest : Str) (h : '\n' ∉ a ++ b) :
     splitIncl (a ++ (b ++ '\n' :: rest)) = (a ++ (b ++ ['\n'])) :: splitIncl rest := by
@@ -338,24 +341,25 @@ theorem bodyL_noHeader (suf : Str) (c : Correction) (h : Simple c) : ∀ l ∈ b
   · subst hl; exact noDelim_nl '=' (by decide)
   · exact (h.outputLines l hl).1
 
-theorem skey_of_built {c0 : Correction} {e : Entry} (h : Simple c0)
-    (h1 : e.name = (pend c0).name) (h2 : e.attrsStr = (pend c0).attrsStr) (h3 : e.input = c0.input) :
-    e.skey = c0.skey := by
-  simp [Entry.skey, Correction.skey, h1, h2, h3, pend, h.attrs]
+theorem dkey_of_built {c0 : Correction} {e : Entry} (h : Simple c0)
+    (h1 : e.name = (pend c0).name) (h2 : e.attrsStr = (pend c0).attrsStr) (h3 : e.input = c0.input)
+    (h4 : e.hlen = (pend c0).hlen) (h5 : e.dlen = c0.dlen) :
+    e.dkey = c0.dkey := by
+  simp [Entry.dkey, Correction.dkey, h1, h2, h3, h4, h5, pend, h.attrs]
 
 /-- The scanning loop over the remaining tests of a written file, a test `c0` being pending with its
 own body lines collected. -/
 theorem scan_tail (os suf : Str) (hse : SufOK '=' suf) (hsd : SufOK '-' suf) :
     ∀ (cs : List Correction) (c0 : Correction) (acc : List Entry), Simple c0 → (∀ c ∈ cs, Simple c) →
-      (scan (fsOf suf) os (tailLines suf cs) 0 (some (pend c0)) (bodyL suf c0).reverse acc).map Entry.skey
-        = acc.map Entry.skey ++ c0.skey :: cs.map Correction.skey
+      (scan (fsOf suf) os (tailLines suf cs) 0 (some (pend c0)) (bodyL suf c0).reverse acc).map Entry.dkey
+        = acc.map Entry.dkey ++ c0.dkey :: cs.map Correction.dkey
   | [], c0, acc, h0, _ => by
-    obtain ⟨e, he, h1, h2, h3⟩ := buildEntry_body suf c0 [] (pend c0) h0 hsd (by simp)
+    obtain ⟨e, he, h1, h2, h3, h4, h5⟩ := buildEntry_body suf c0 [] (pend c0) h0 hsd (by simp)
     simp only [List.append_nil] at he
-    simp [tailLines, scan, finishPrev, he, skey_of_built h0 h1 h2 h3]
+    simp [tailLines, scan, finishPrev, he, dkey_of_built h0 h1 h2 h3 h4 h5]
   | c :: cs, c0, acc, h0, h => by
     have hc := h c (by simp)
-    obtain ⟨e, he, h1, h2, h3⟩ := buildEntry_body suf c0 [['\n']] (pend c0) h0 hsd
+    obtain ⟨e, he, h1, h2, h3, h4, h5⟩ := buildEntry_body suf c0 [['\n']] (pend c0) h0 hsd
       (by intro l hl; simp at hl; subst hl; exact noDelim_nl '-' (by decide))
     have ih := scan_tail os suf hse hsd cs c (acc ++ [e]) hc (fun x hx => h x (by simp [hx]))
     have e1 : tailLines suf (c :: cs) = ['\n'] :: (hdrL suf c ++ (bodyL suf c ++ tailLines suf cs)) := by
@@ -372,7 +376,7 @@ theorem scan_tail (os suf : Str) (hse : SufOK '=' suf) (hsd : SufOK '-' suf) :
     rw [e4, scan_noHeader _ _ _ _ _ _ _ (bodyL_noHeader suf c hc)]
     simp only [List.append_nil]
     rw [ih]
-    simp [skey_of_built h0 h1 h2 h3]
+    simp [dkey_of_built h0 h1 h2 h3 h4 h5]
 
 /-! ## the file's suffix as the reader discovers it -/
 
@@ -427,11 +431,11 @@ theorem firstSuffix_written (suf : Str) (hse : SufOK '=' suf) (c : Correction) (
       · exact key c' (h c' (by simp [hc'])) l hl n s hp
 
 /-- `parse_write_roundtrip` for `Simple` corrections: the reader applied to the written file returns,
-in order, one entry per correction with the same name, attribute text and input — for every list of
-corrections, every delimiter lengths ≥ 3 and every admissible suffix. -/
+in order, one entry per correction with the same name, attribute text, input and delimiter lengths — for
+every list of corrections, every delimiter lengths ≥ 3 and every admissible suffix. -/
 theorem roundtrip_simple (os suf : Str) (hse : SufOK '=' suf) (hsd : SufOK '-' suf) (cs : List Correction)
     (h : ∀ c ∈ cs, Simple c) :
-    (parseFile os (writeTests suf cs)).map Entry.skey = cs.map Correction.skey := by
+    (parseFile os (writeTests suf cs)).map Entry.dkey = cs.map Correction.dkey := by
   cases cs with
   | nil => simp [parseFile, writeTests, splitIncl, scan, finishPrev, firstSuffix]
   | cons c cs =>
